@@ -103,6 +103,35 @@ def candidates(tree):
                 yield n, ast.unparse(ast.Subscript(n.value, ast.Constant(alt), ast.Load())), "index-changed"
             if isinstance(n, ast.ExceptHandler) and n.type is not None and isinstance(n.type, ast.Tuple) and len(n.type.elts) >= 2:
                 pass
+        # ---- third set of operators (--ops c): dropped statements and guards, stale values, swapped siblings
+        if OPS == "c":
+            if isinstance(n, ast.Assign) and len(n.targets) == 1 and isinstance(n.targets[0], (ast.Name, ast.Attribute, ast.Subscript)) and not isinstance(getattr(n, "_p", None), (ast.Module, ast.ClassDef)):
+                yield n, "pass", "assign-deleted"
+            if isinstance(n, ast.Return) and n.value is not None and not (isinstance(n.value, ast.Constant) and n.value.value is None):
+                yield n, "return None", "return-none"
+            if isinstance(n, ast.Raise) and n.exc is not None:
+                yield n, "pass", "raise-deleted"
+            if isinstance(n, ast.AugAssign):
+                yield n, ast.unparse(ast.Assign([n.target], n.value, lineno=0)), "augassign-to-assign"
+            if isinstance(n, ast.If) and not (isinstance(n.test, ast.Constant)):
+                yield n.test, "True", "cond-true"
+                yield n.test, "False", "cond-false"
+            if isinstance(n, ast.For) and not isinstance(n.iter, ast.Call):
+                yield n.iter, "(" + ast.unparse(n.iter) + ")[1:]", "iter-skip-first"
+                yield n.iter, "(" + ast.unparse(n.iter) + ")[:-1]", "iter-skip-last"
+            if isinstance(n, ast.Attribute) and isinstance(n.ctx, ast.Load) and n.attr in ("ctx_start", "ctx_end", "lhs", "rhs", "start", "end"):
+                alt = {"ctx_start": "ctx_end", "ctx_end": "ctx_start", "lhs": "rhs", "rhs": "lhs", "start": "end", "end": "start"}[n.attr]
+                yield n, ast.unparse(ast.Attribute(n.value, alt, ast.Load())), "attr-swapped"
+            if isinstance(n, ast.Dict) and 2 <= len(n.keys) <= 8 and not isinstance(getattr(n, "_p", None), (ast.Assign,)) or (isinstance(n, ast.Dict) and 2 <= len(n.keys) <= 4):
+                for i in (0, len(n.keys) - 1):
+                    if n.keys[i] is not None:
+                        yield n, ast.unparse(ast.Dict(n.keys[:i] + n.keys[i + 1:], n.values[:i] + n.values[i + 1:])), "dict-entry-dropped"
+            if isinstance(n, ast.Call) and n.keywords and len(n.keywords) <= 3 and not isinstance(n.func, ast.Attribute):
+                for i, kw in enumerate(n.keywords):
+                    if kw.arg in ("maybe", "lookahead", "default", "skip_whitespace_before", "case_sensitive", "no_dot", "break_on_closing_bracket", "unsigned"):
+                        yield n, ast.unparse(ast.Call(n.func, n.args, n.keywords[:i] + n.keywords[i + 1:])), "kwarg-dropped"
+            if isinstance(n, ast.Try) and n.finalbody and not n.handlers:
+                yield n, ast.unparse(ast.Module(n.body + n.finalbody, [])), "finally-flattened"
 
 
 def apply(src, node, repl):
@@ -124,6 +153,8 @@ def apply(src, node, repl):
 FIRST_SET = {"cmp", "binop", "const+1", "const-1", "bool", "boolop", "not-removed", "neg-removed", "cond-negated", "ifexp-swapped", "call-deleted", "augassign-deleted", "continue-deleted",
              "break-deleted", "slice-lower+1", "slice-upper-1", "case-fold-removed", "wait-removed"}
 OPS = "a"
+THIRD_SET = {"assign-deleted", "return-none", "raise-deleted", "augassign-to-assign", "cond-true", "cond-false", "iter-skip-first", "iter-skip-last", "attr-swapped", "dict-entry-dropped",
+             "kwarg-dropped", "finally-flattened"}
 
 
 def enumerate_mutants(modules):
@@ -136,7 +167,9 @@ def enumerate_mutants(modules):
             for c_ in ast.iter_child_nodes(n_):
                 c_._p = n_
         for node, repl, kind in candidates(tree):
-            if (OPS == "b") == (kind in FIRST_SET):
+            if OPS in ("a", "b") and (OPS == "b") == (kind in FIRST_SET):
+                continue
+            if OPS == "c" and kind not in THIRD_SET:
                 continue
             try:
                 new = apply(src, node, repl)
